@@ -50,8 +50,15 @@ func checkC12(r *core.Run, p *core.Program) {
 	r.Rule("C12.normalise", "every concrete type that is boxed into a map/record-type key (collected from all calls of EventRule.OnKeyableObject and Context.NotifyKey) and belongs to the integer family has a case in NotifyKey's type switch that rewrites it to the canonical integer key (uint64 when >= 0, int64 when negative and fitting, sign+words array otherwise; the negative-magnitude type must be negated); for *big.Int the uint64 test comes first; non-comparable key types are converted to comparable values.")
 	r.Rule("C12.disjoint", "the canonical key representations of different kinds of key (integer, boolean, UID, time, string, resource ID) are pairwise different Go types, so keys that denote different values can never be reported as duplicates of each other.")
 	r.Rule("C12.lookup", "NotifyKey looks the canonical key up in the current container's key set, rejects on a hit, and inserts it otherwise; (that every key-position handler reaches NotifyKey and that each container gets a fresh key set is part of the C10 table).")
+	r.Rule("C12.routes", "every route by which a key can be completed in a map-key or record-type context (scalar, whole array, string-like array, end of a chunked array, marked key) registers it with NotifyKey in the representation of its kind (string vs resource ID), and a marked key is re-dispatched to the key context with its real data type: the complete rows of MapKeyRule, RecordTypeRule and MarkedObjectKeyableRule equal the reference specification, and the Context helpers they use keep the data type and buffer intact.")
 	r.NotDecide("collisions inside one Go type (Go map key equality is trusted); which encodings a codec chooses for a value")
 
+	{
+		a0 := newAnalysis(p)
+		n := checkTableRows(r, p, a0, "C12.routes", []string{"MapKeyRule", "RecordTypeRule", "MarkedObjectKeyableRule"}, nil)
+		r.Floor("C12.routes", "key-context cells", n, 3*23)
+		checkCtxPrimitives(r, p, a0, "C12.routes", "endContainerLike", "tryEndArray", "GetBuiltArrayAsString", "AddBuiltArrayBytes", "beginArray", "MarkEndedContainer", "UnstackRule", "BeginArrayKeyable", "ValidateFullArrayKeyable", "ValidateFullArrayStringlikeKeyable")
+	}
 	pkg := p.Pkg("rules")
 	info := pkg.TypesInfo
 	nk := findFn(p, "rules", "Context.NotifyKey")
